@@ -61,6 +61,19 @@ def classes(fresh=False):
             def field_types(cls):
                 return [int, float, str]
 
+        @dataclass(slots=True)
+        class CS(CSVRecord):
+            # a record class with slots (`@dataclass(slots=True)`): its fields are not in the instance dictionary
+            i: int
+            x: float
+            s: str
+
+        @dataclass(slots=True)
+        class JS(JsonRecord):
+            i: Any
+            x: Any
+            s: Any
+
         @dataclass
         class J(JsonRecord):
             a: Any
@@ -84,7 +97,7 @@ def classes(fresh=False):
         class JD(J):
             d: Any = None
 
-        _CLS.update(C2=C2, T3=T3, C1=C1, CT=CT, TT=TT, CO=CO, J=J, C3D=C3D, T4D=T4D, CTD=CTD, JD=JD)
+        _CLS.update(C2=C2, T3=T3, C1=C1, CT=CT, TT=TT, CO=CO, CS=CS, JS=JS, J=J, C3D=C3D, T4D=T4D, CTD=CTD, JD=JD)
     return _CLS
 
 
@@ -683,7 +696,11 @@ class Prop(SeqProp):
             i = rng.choice([0, -1, 7, 10 ** 30, -2 ** 63, rng.randint(-10 ** 9, 10 ** 9)])
             x = gen_float(rng)
             s = gen_str(rng)
-            recs = [cl["CT"](i, x, s), cl["TT"](s, i, x), cl["CTD"](i, x, s, gen_str(rng)), cl["CO"](i, x, s)]
+            recs = [cl["CT"](i, x, s), cl["TT"](s, i, x), cl["CTD"](i, x, s, gen_str(rng)), cl["CO"](i, x, s), cl["CS"](i, x, s)]
+            js = cl["JS"](i if abs(i) < 2 ** 62 else 1, x if math.isfinite(x) else 0.5, s)
+            jback = type(js).load(js.save())
+            if jback != js or "\n" in js.save():
+                return f"fail typed (json record with slots) {js!r} -> {js.save()!r} -> {jback!r}"
             rng.shuffle(recs)
             for rec in recs:
                 line = rec.save()
